@@ -682,8 +682,8 @@ class C14:
 
     # ------------------------------------------------------------------- model
     def coq_header(self):
-        return ("From Coq Require Import ZArith List.\nFrom Bignums Require Import BigQ.\n"
-                "From LW Require Import Base.Sx Exec.QNum Model.Reck Exec.RunC14.\nImport ListNotations.\n")
+        return ("From Coq Require Import ZArith List.\nFrom Bignums Require Import BigZ.\n"
+                "From LW Require Import Base.Num Base.Mat Base.Sx Model.Reck Exec.RunC14.\nImport ListNotations.\n")
 
     def _obs(self, c):
         o = self._cache.get(_key(c))
